@@ -61,6 +61,8 @@ def t_copyfile(ex):
     want = []
     if pre == "absent_no_parent_mkdirs":
         want.append(("ensure_dirs", os.path.dirname(LOC)))
+    if existed:
+        want.append(("unlink_if_exists", fp))   # a leftover '#new' of an interrupted merge is cleared first: the data transfer neither truncates nor refuses a symlink
     create = {"file": ("write_file", fp), "sym": ("symlink", fp), "fifo": ("mkfifo", fp), "dev": ("mknod", fp)}[kind]
     want.append(create)
     shape = [(e[0], e[1]) for e in eff]
@@ -75,7 +77,7 @@ def t_copyfile(ex):
     want += perms
     if existed:
         want.append(("rename", fp))
-    ex.oblige(f"{P}.ensures.creates_then_owner_mode_mtime_then_one_rename_if_something_was_there[{'+'.join(a for a in present if present[a]) or 'no attributes'}]", shape == want)
+    ex.oblige(f"{P}.ensures.clears_a_stale_sibling_creates_then_owner_mode_mtime_then_one_rename_if_something_was_there[{'+'.join(a for a in present if present[a]) or 'no attributes'}]", shape == want)
     ex.oblige(f"{P}.frame.only_the_location_its_staging_name_and_the_missing_parent", set(tr.paths()) <= {LOC, NEW, os.path.dirname(LOC)})
     if existed:
         ex.oblige(f"{P}.ensures.rename_goes_from_the_staging_name_onto_the_location", eff[-1] == ("rename", NEW, LOC))
@@ -266,6 +268,15 @@ def enum_merges(seed):
             _build(rnd, root, rnd.sample(NAMES, rnd.choice((0, 2, 4))))
             os.makedirs(root, exist_ok=True)
             cset = contents.contentsSet(livefs.scan(src, offset=src))
+            # leftovers of an earlier, interrupted merge: '#new' siblings (longer than the new content, or of another type) beside files that get replaced
+            for dp, dn, fn in list(os.walk(root)):
+                for n_ in fn:
+                    fp = os.path.join(dp, n_)
+                    if not n_.endswith("#new") and os.path.lexists(os.path.join(src, os.path.relpath(fp, root))) and rnd.random() < .4:
+                        if rnd.random() < .7:
+                            open(fp + "#new", "w").write("LEFTOVER OF AN INTERRUPTED MERGE, LONGER THAN ANYTHING THE PACKAGE INSTALLS " * 3)
+                        else:
+                            os.symlink("stale", fp + "#new")
             # a directory of the package cannot replace a non-directory (refused by design): keep to mergeable combinations
             before = _snapshot(root)
             want = _snapshot(src)
@@ -307,6 +318,8 @@ def enum_merges(seed):
                 if len(g) > 1 and len({after[k][6] for k in g if k in after}) != 1:
                     probs.append(f"hardlink group {g} is not hardlinked after the merge")
             for k, b in before.items():
+                if k.endswith("#new") and k[:-4] in want:
+                    continue   # a temporary sibling of an entry the package installs: may be reused or removed
                 if k not in want and after.get(k) != b and not any(k.startswith(w + "/") for w in want if want[w][0] != "dir"):
                     probs.append(f"unrelated path {k} changed: {b[:2]} -> {(after.get(k) or ('gone',))[:2]}")
             for k in after:
@@ -317,7 +330,7 @@ def enum_merges(seed):
     finally:
         shutil.rmtree(scratch, ignore_errors=True)
     return {"name": "C18.merge_contents.bounded_enumeration", "bound": "40 seeded random content trees (<= 7 of 9 names: files with odd modes/owners/mtimes, hardlink groups, symlinks incl. dangling, fifos, nested "
-            "directories, a name with a space) merged with an offset into random pre-existing roots in a scratch directory; lstat/data/readlink/inode snapshots compared", "cases": cases, "failures": fails}
+            "directories, a name with a space) merged with an offset into random pre-existing roots (some holding '#new' leftovers of an interrupted merge) in a scratch directory; lstat/data/readlink/inode snapshots compared", "cases": cases, "failures": fails}
 
 
 def tasks():
